@@ -670,6 +670,7 @@ func (e *Engine) evalBinary(st *State, env *cenv, x *CExpr) (Val, error) {
 			return Val{}, fmt.Errorf("'in' needs a map")
 		}
 		dh := st.heap(e.mapDomHeap(mt))
+		k = e.keyVal(st, k, mt)
 		return Val{K: KBool, T: sAnd(sNot(sEq(m.T, "null")), "(select (select "+dh+" "+m.T+") "+k.T+")")}, nil
 	}
 	a, err := e.evalC(st, env, x.Args[0])
